@@ -233,8 +233,12 @@ func (b *WB) verify(m *Model, o VerifyOpts) error {
 	if !o.Locked && w.IsLocked() {
 		return fmt.Errorf("%s: IsLocked()=true although no query is open", b.Name)
 	}
-	if used := w.Stats().Entities.Used; used != m.NAlive {
-		return fmt.Errorf("%s: Stats().Entities.Used=%d, creations-removals=%d", b.Name, used, m.NAlive)
+	es := w.Stats().Entities
+	if es.Used != m.NAlive {
+		return fmt.Errorf("%s: Stats().Entities.Used=%d, creations-removals=%d", b.Name, es.Used, m.NAlive)
+	}
+	if es.Used+es.Recycled != es.Total {
+		return fmt.Errorf("%s: Stats().Entities.Used=%d + Recycled=%d != Total=%d", b.Name, es.Used, es.Recycled, es.Total)
 	}
 	size := 0
 	for i := range w.Stats().Nodes {
